@@ -269,7 +269,7 @@ def gen_program(seed: int) -> Dict[str, Any]:
         # the same entities in a second Mesh object: must render to the same file
         ops.append({"op": "remesh"})
         ops.append({"op": "write", "path": DICT + ".second"})
-    return {"ops": ops}
+    return {"ops": ops, "point_type": rs.sub("ptype").pick(["list", "list", "tuple", "array", "int_where_whole"])}
 
 
 # ---------------------------------------------------------------------------------------
